@@ -570,6 +570,7 @@ type Hydrator struct {
 	persistent bool           // True when file should survive across restarts
 	file       *os.File       // Local database file
 	complete   atomic.Bool    // True when restore completes
+	disabled   atomic.Bool    // True once Disable was called: hydrated reads stay off
 	txid       ltx.TXID       // TXID the hydrated file is at
 	mu         sync.Mutex     // Protects hydration file writes
 	err        error          // Stores fatal hydration error
@@ -629,10 +630,14 @@ func (h *Hydrator) Complete() bool {
 // SetComplete marks hydration as complete.
 func (h *Hydrator) SetComplete() {
 	h.complete.Store(true)
+	if h.disabled.Load() { // Disable ran first (or runs concurrently and stores false after us)
+		h.complete.Store(false)
+	}
 }
 
 // Disable temporarily disables hydrated reads (used during time travel).
 func (h *Hydrator) Disable() {
+	h.disabled.Store(true)
 	h.complete.Store(false)
 }
 
@@ -1176,7 +1181,8 @@ func (f *VFSFile) SetTargetTime(ctx context.Context, timestamp time.Time) error 
 	}
 
 	// Disable hydrated reads during time travel - hydrated file is at latest state
-	if f.hydrator != nil && f.hydrator.Complete() {
+	// (also when hydration is still in flight: it must not switch itself on later)
+	if f.hydrator != nil {
 		f.hydrator.Disable()
 		f.logger.Debug("hydration disabled for time travel", "target", timestamp)
 	}
